@@ -102,9 +102,14 @@ def make_ss_request_job(N, kind, akind, tier, nseg, sizes):
             if isinstance(m.get('host'), dict):
                 spec['host'] = m['host']['bytes']
             return spec
+        def eng_rp(v):
+            # precondition violations inside the encoder (slice bounds / spare capacity) are replayed on the real encoder with 1..17 spare bytes
+            if 'encode' in v.site or 'ChunkEncoder' in v.site:
+                return {'entry': 'ss_encode_capacity', 'N': N, 'kind': kind, 'mode': 'Client'}
+            return rp(v.model or {})
         for p in paths:
             if p.status != 'return':
-                ctx.absorb(ex, [p])
+                ctx.absorb(ex, [p], replay_of=eng_rp)
                 continue
             if not ex.check(p.pcs + [p.ret.disc == 0])[0]:
                 continue
@@ -120,7 +125,7 @@ def make_ss_request_job(N, kind, akind, tier, nseg, sizes):
                 extra.append(z3.UGE(z3.BitVec('cut1', 64), bv64(N + 1 + 8 + 2 + 16)))
             results = c05.drive(ex, dec, [Ref('#server'), Ref('#src')], {'#src': src}, extra, {}, 3 * nseg + 3 * W + 6, c04.inbound_item, nseg=nseg, start=p)
             for q, rel, end in results:
-                ctx.absorb(ex, [q])
+                ctx.absorb(ex, [q], replay_of=eng_rp)
                 if end == 'calls':
                     ctx.out.inconclusive.append('decode call bound reached')
                 elif end == 'err':
